@@ -199,6 +199,26 @@ def judge_c04(d):
     return None
 
 
+def judge_c12(d):
+    q, impl, model = d["query"], d["impl"], d["model"]
+    t = q.split()
+    if impl == "panic":
+        return "extract_client_random panicked on client bytes"
+    data = unhex(t[2])
+    if t[1] == "extract" and impl.startswith("found"):
+        r = impl.split()[1]
+        if len(data) < 43 or data[11:43].hex() != r or data[0] != 22 or data[5] != 1:
+            return "reported client random %s is not the random field of a ClientHello starting the stream" % r
+    if t[1] == "loop" and impl.startswith("some"):
+        r = impl.split()[1]
+        if data[11:43].hex() != r:
+            return "read loop reported %s, the ClientHello's random is %s" % (r, data[11:43].hex())
+    if model.startswith("found") or model.startswith("some"):
+        if t[1] == "loop" or len(data) < 15000:
+            return "a complete single-record ClientHello was not recognised (answer %s, expected %s)" % (impl, model[:80])
+    return None
+
+
 PROPS = {
     "C03": dict(
         suites=["c03"],
@@ -261,5 +281,20 @@ PROPS = {
         trusted=["ipnet CIDR parsing and hex::decode (the harness passes parsed CIDRs to the model; hex decoding is modelled)",
                  "accept-path ordering is a hand transcription of core.rs, tied by the live listener probe (TCP only; QUIC path read only)"],
         assumptions=["QUIC: rules are evaluated after the QUIC handshake completes but before any HTTP/3 codec exists, as the property states"],
+    ),
+    "C12": dict(
+        suites=["c12"],
+        judge=judge_c12,
+        level="proof",
+        rule="ClientHellos from rustls (varied SNI/ALPN) and synthetic ones (session ids, suite lists, padding and key-share "
+             "extensions from 0 to just over 16 KiB, fragmented over two records): extraction on the full record, with suffix, with a "
+             "second record, on every prefix (short) / sampled prefixes (long), on mutations of every length field, on odd first "
+             "records; the real read loop + prebuffer replay over loopback TCP written in chosen segments with chosen read sizes",
+        explanation="theorems extract_exact, prefix_needs_more, found_is_the_field, loop_segmentation_invariant, "
+                    "loop_absent_never_wrong, loop_conserves, replay_transparent/complete about TT/Model/ClientHello.lean",
+        trusted=["tls-parser 0.12 record/handshake/ClientHello walk as transcribed; exactness claimed for records whose first handshake "
+                 "message is a ClientHello and for non-handshake records (a record starting with another handshake message is outside the model)",
+                 "rustls handshake on the replayed bytes; QUIC: SSL_get_client_random of BoringSSL trusted"],
+        assumptions=["near the 16 KiB prebuffer cap the loop's answer (absent vs found) depends on arrival timing; never a wrong value (loop_absent_never_wrong)"],
     ),
 }
